@@ -202,6 +202,17 @@ def build_member(r, first, last, now, force=None):
     if path is None:
         path = [rand_namebytes(r, 6) for _ in range(r.choice([0, 0, 1, 2, 3]))]
     target = a["target"] if a["target"] is not None else rand_namebytes(r, 10)
+    if level >= 2 and a["name"] is None and a["path"] is None and a["target"] is None and r.random() < 0.12:
+        # exact lengths around powers of two for ONE of the printed pieces (name, path incl. separators, link target with its
+        # " -> " / "|" decoration): a formatting buffer boundary shows only at one exact length
+        L = r.choice([63, 64, 65, 127, 128, 129, 255, 256, 257, 511, 512, 513, 1023, 1024, 1025]) - r.choice([0, 0, 0, 1, 4])
+        which = r.choice(["name", "path", "target"])
+        if which == "name":
+            name = rand_namebytes(r, L, L)
+        elif which == "path":
+            path = [rand_namebytes(r, max(1, L - 1), max(1, L - 1))]          # plus the trailing separator = L
+        else:
+            target = rand_namebytes(r, max(1, L), max(1, L))
     if kind == "dir" and not path:
         path = [rand_namebytes(r, 6)]
     data = bytes(r.randrange(256) for _ in range(a["datalen"])) if not is_dir or r.random() < 0.2 else b""
